@@ -8,8 +8,11 @@ theorem nsItems_eq_mappingOf (val : Option V) : nsItems val = mappingOf val := b
   | none => rfl
   | some (.dict _ _) => rfl
   | some (.atom 0 0) => rfl
+  | some (.atom 3 _) => rfl
   | some (.atom 0 (i+1)) => simp [nsItems, mappingOf, V.falsy]
-  | some (.atom (t+1) i) => simp [nsItems, mappingOf, V.falsy]
+  | some (.atom 1 i) => simp [nsItems, mappingOf, V.falsy]
+  | some (.atom 2 i) => simp [nsItems, mappingOf, V.falsy]
+  | some (.atom (t+4) i) => simp [nsItems, mappingOf, V.falsy]
 
 theorem hasKey_cons {α} (k k' : String) (v : α) (l : List (String × α)) :
     hasKey k ((k', v) :: l) = false ↔ k ≠ k' ∧ hasKey k l = false := by
